@@ -251,7 +251,8 @@ def c03(v, h, op, res, k, prev):
         if end is not None and start is None and billed(a) != 0:
             h.report('C03', 'C03:billed-without-start', k, list(a))
         if reason == 'activation_timeout' and billed(a) != 0:
-            h.report('C03', f'C03:activation-timeout-attempt-billed:after-{op["op"]}', k, list(a))
+            # (one cause whatever report exposes it: the trigger tests the timeout mark before it restores the stored reason)
+            h.report('C03', 'C03:activation-timeout-attempt-billed:late-report-on-timed-out-attempt', k, list(a))
         if (end is None) != (reason is None):
             h.report('C03', f'C03:end-without-reason-or-reason-without-end:after-{op["op"]}', k, list(a))
         if prev is None:
@@ -263,10 +264,12 @@ def c03(v, h, op, res, k, prev):
         timeout = reason == 'activation_timeout' and oreason != 'activation_timeout'      # this report MARKS the timeout
         # the report leaves the attempt with an end earlier than the time already billed (cf. Clamp.billed4_monotone)
         corrected = end is not None and orollup is not None and end < orollup
+        # findings are identified by the failing situation, not by the kind of report that happens to expose it
+        where = 'timed-out-attempt-that-got-a-start' if oreason == 'activation_timeout' else f'after-{op["op"]}'
         if billed(a) < billed(o) and not timeout and not corrected:
-            h.report('C03', f'C03:billed-time-decreased:after-{op["op"]}', k, {'before': list(o), 'after': list(a)})
+            h.report('C03', f'C03:billed-time-decreased:{where}', k, {'before': list(o), 'after': list(a)})
         if ostart is not None and not timeout and (start is None or start > ostart):
-            h.report('C03', f'C03:start-moved-later:after-{op["op"]}', k, {'before': list(o), 'after': list(a)})
+            h.report('C03', f'C03:start-moved-later:{where}', k, {'before': list(o), 'after': list(a)})
         if oreason is not None:
             earlier = oend is not None and end is not None and end < oend      # the one permitted correction (reason follows the end)
             if not earlier and (reason != oreason or end != oend):
@@ -466,7 +469,11 @@ def note_new_jobs(v, h, op, res, k, prev):
             if q == jid:
                 h.report('C08', 'C08:accepted-self-dependency', k, {'job': jid})
             elif (bb, q) not in v.jobs:
-                h.report('C08', 'C08:accepted-missing-dependency', k, {'job': jid, 'parent': q})
+                # a parent in ANOTHER bunch of the same (still open) update may legitimately not be there yet: the client sends
+                # the bunches of an update concurrently, and the update cannot be committed before every reserved id has its
+                # job (commit_batch_update compares the staged count with the declared size; Props_C08.C08_accepted_is_wellfounded)
+                if not (sj <= q < sj + nj):
+                    h.report('C08', 'C08:accepted-missing-dependency', k, {'job': jid, 'parent': q})
             elif q > jid:
                 h.report('C08', 'C08:accepted-later-dependency', k, {'job': jid, 'parent': q})
     # a swallowed bunch (ER_DUP_ENTRY) whose ids belong to ANOTHER update's range
